@@ -404,6 +404,9 @@ def plan(ctx, fam):
                 nb = [v for v in splits if v["inv"] == "numba"]
                 if q:
                     chosen += [(py[(rot + 3 * t) % len(py)], None) for t in range(2)]
+                    # always the split into n_cells parts (faces that lie in the overlap of three and more sub-problems)
+                    chosen += [(v, None) for v in py if v["req"] in (info["nc"], info["nc"] // 2) and v["by"] == "num"
+                               and all(v is not w for w, _ in chosen)]
                     if rot % 3 == 0:
                         chosen.append((nb[rot % len(nb)], None))
                     fresh = [v for v in partial if v["how"] == "fresh"]
@@ -582,7 +585,7 @@ def run(ctx):
     ctx.rule = ("TLC enumerates, on the incidences of real grids (Cartesian / structured simplex, 2D and - thorough - small 3D, plain "
                 "and lattice-perturbed / sheared): (scheme mpfa | mpsa | biot) x (3 tensor / Lame / coupling catalogue entries: "
                 "homogeneous, heterogeneous isotropic, heterogeneous full tensor) x (boundary mode dir | neu | mix | mix3 with Robin | "
-                "roll) x variant, variants = other inverter; split into a wanted number of subproblems k in {1, 2, 3, n_cells} "
+                "roll) x variant, variants = other inverter; split into a wanted number of subproblems k in {1, 2, 3, n_cells div 2, n_cells} "
                 "requested by num_subproblems or by the max_memory value TLC derives from the peak-memory model, with either "
                 "inverter; partial discretisation with specified cells / faces / nodes (TLC enumerates the subsets) requested as "
                 "fresh / parameter flag update_discretization / method update_discretization; partial + split.  The harness "
